@@ -9,6 +9,7 @@ import (
 	"path"
 	"path/filepath"
 	"regexp"
+	"strconv"
 	"strings"
 	"sync"
 	"testing"
@@ -112,16 +113,37 @@ func (s Site) indexNames() []string {
 	return []string{"index.html", "index.htm", "index.txt", "default.html", "default.htm", "default.txt"}
 }
 
+// offered reports whether the Accept-Encoding value makes the coding
+// acceptable: listed with a weight other than zero, or covered by a "*" with
+// a weight other than zero while not listed itself.
 func offered(ae, coding string) bool {
 	if ae == "-" {
 		return false
 	}
+	star, listed, ok := false, false, false
 	for _, a := range strings.Split(ae, ",") {
-		if strings.TrimSpace(a) == coding {
-			return true
+		parts := strings.Split(a, ";")
+		name := strings.TrimSpace(parts[0])
+		q := 1.0
+		for _, prm := range parts[1:] {
+			prm = strings.TrimSpace(prm)
+			if len(prm) > 2 && (prm[0] == 'q' || prm[0] == 'Q') && prm[1] == '=' {
+				if v, err := strconv.ParseFloat(prm[2:], 64); err == nil {
+					q = v
+				}
+			}
+		}
+		switch {
+		case strings.EqualFold(name, coding):
+			listed = true
+			if q > 0 {
+				ok = true
+			}
+		case name == "*" && q > 0:
+			star = true
 		}
 	}
-	return false
+	return ok || (star && !listed)
 }
 
 // allowedBodies: the set of fixture files whose exact bytes may be the body
@@ -373,7 +395,8 @@ var realTargets = []string{"/", "/a.txt", "/b.html", "/c.txt", "/dir", "/dir/", 
 	"/?archive=zip", "/?archive=tar", "/?archive=tar.gz", "/noindex/?archive=zip", "/dir/sub/?archive=tar", "/noindex/?archive=tar.gz", "//noindex", "//dir", "///dir", "//a.txt/", "///a.txt/", "///example.com%2f../a.txt/", "//example.com/..", "/%2e%2e/outside/o.txt", "/..%2foutside.txt", "/dir/../../outside/o.txt"}
 
 func genReq(t *rapid.T, lb string) Req {
-	r := Req{Method: "GET", AE: rapid.SampledFrom([]string{"-", "gzip", "br", "zstd", "gzip, br", "zstd, gzip", "identity", "junk", "gzip, deflate, br, zstd", "deflate, gzip, zstd"}).Draw(t, lb+"ae")}
+	r := Req{Method: "GET", AE: rapid.SampledFrom([]string{"-", "gzip", "br", "zstd", "gzip, br", "zstd, gzip", "identity", "junk", "gzip, deflate, br, zstd", "deflate, gzip, zstd",
+		"gzip;q=0", "identity, gzip;q=0", "br;q=0, gzip", "zstd;q=0.0, br;q=0, gzip;q=0", "gzip;q=0.5", "*;q=0", "*", "GZIP"}).Draw(t, lb+"ae")}
 	if rapid.IntRange(0, 5).Draw(t, lb+"head") == 0 {
 		r.Method = "HEAD"
 	}
